@@ -26,8 +26,8 @@ def _dev(dev: str, expect: str) -> Dict[str, Any]:
 H1_GEN = [from_tlc.gen_h1_from_spec]
 
 PROPS: Dict[str, Dict[str, Any]] = {
-    "C01": {"monitor": "C01", "generators": [gen_h1.gen_c01, gen_h2.gen_h2_basic] + H1_GEN, "design": H1_DESIGN},
-    "C02": {"monitor": "C02", "generators": [gen_h1.gen_c02, gen_h2.gen_h2_basic, gen_h1.gen_c06] + H1_GEN, "design": H1_DESIGN},
+    "C01": {"monitor": "C01", "generators": [gen_h1.gen_c01, gen_h2.gen_h2_basic, gen_h1.gen_c06] + H1_GEN, "design": H1_DESIGN},
+    "C02": {"monitor": "C02", "generators": [gen_h1.gen_c02, gen_h2.gen_h2_basic, gen_h1.gen_c06, gen_h2.gen_flow] + H1_GEN, "design": H1_DESIGN},
     "C03": {"monitor": "C03", "generators": [gen_h1.gen_c03, gen_h2.gen_h2_faults] + H1_GEN, "design": H1_DESIGN,
             "deviations": [_dev("DevDoubleLog", "AtMostOneAccess"), _dev("DevParked", "Released")]},
     "C05": {"monitor": "C05", "generators": [gen_h1.gen_c05, gen_h2.gen_h2_faults] + H1_GEN, "design": H1_DESIGN},
@@ -85,7 +85,10 @@ ADAPTER_ASSUMPTIONS = [
 
 
 def selftest(prop: str, monitor: str, jobs, traces, verdicts) -> Dict[str, Any]:
-    return {"failed": [], "summary": "not yet implemented"}
+    from .selftest import run_selftest
+
+    return run_selftest(prop, monitor, traces, verdicts)
+
 
 NOT_APPLICABLE: Dict[str, str] = {}
 SOURCE_COMMITS: List[str] = []
